@@ -143,8 +143,18 @@ def opC14Params (j : Json) : Except String Json := do
     | _ => throw "bad param"
   pure (Json.mkObj [("params", jarr ((metadataParams cs it fl).map fun p => jarr [jstr p.name, jstr p.type]))])
 
+/-- `result_type` of one metadata entry: {"void", "ss", "lro", "paged", "cs", "out_type"} -/
+def opC14Result (j : Json) : Except String Json := do
+  let void ← getBoolK j "void"
+  let ss ← getBoolK j "ss"
+  let t ← getStrL j "out_type"
+  let m : MethodShape := ⟨← getBoolK j "lro", ← getBoolK j "paged", ← getBoolK j "cs", ss⟩
+  let rt := metadataResultType void ss t
+  pure (Json.mkObj [("result_type", match rt with | some r => jstr r | none => Json.null),
+    ("stream_shaped", Json.bool (streamShaped t rt)), ("yields_stream", Json.bool (callingForm m).yieldsStream)])
+
 def opsC14 : List (String × (Json → Except String Json)) :=
   [("c14.specs", opC14Specs), ("c14.form", opC14Form), ("c14.segments", opC14Segments), ("c14.request", opC14Request),
-   ("c14.names", opC14Names), ("c14.params", opC14Params)]
+   ("c14.names", opC14Names), ("c14.params", opC14Params), ("c14.result", opC14Result)]
 
 end GapicModel.Driver
